@@ -48,6 +48,8 @@ func init() {
 		// the pool alone: after Shutdown has returned at most the already accepted jobs (queue + one per worker) may still start
 		poolCheck(c, "C18", []string{"C18:", "C04:panic"})
 		c18Signals(c)
+		// a signal while the build is still waiting for the workspace lock held by another build
+		lockWaiterInterrupted(c)
 	}
 }
 
